@@ -109,3 +109,23 @@ def run(ctx: Ctx):
     ctx.ok("custom-enum-value-survives")
     ctx.extra["sites"] = len(sa.sites)
     ctx.extra["worlds"] = sa.worlds
+
+
+_run_before_ranges = run
+
+
+def run(ctx: Ctx):  # noqa: F811
+    _run_before_ranges(ctx)
+    # a spec-valid integer / uinteger at the edge of its range must be accepted when parsing, else the value cannot make the round trip at all (the accept set of the validators is decided in C12; a wrongly rejected in-range value is a violation of this property too)
+    from ..common import Ctx as _Ctx, AnalysisError as _AE
+    from . import c12 as _c12
+    sub = _Ctx(ctx.prop, ctx.tier, ctx.seed, ctx.src, quiet=True)
+    try:
+        _c12._run_validators(sub)
+    except _AE:
+        pass
+    hits = [f for f in sub.findings if f.rule == "accept-in-range" and "integer" in f.construct]
+    for f in hits:
+        ctx.fail("spec-range-accepted", f.construct, f.message, f.file, f.line)
+    if not hits:
+        ctx.ok("spec-range-accepted")
